@@ -279,6 +279,36 @@ pub fn main(a: Args) -> i32 {
             dst.push(("changed.txt".to_string(), pool[3].clone(), 1_650_000_000, 0));
             excludes = vec![if it == 7 { "*/out".to_string() } else { "build/out".to_string() }];
         }
+        if a.replay.is_none() && it >= 8 && it % 20 == 9 {
+            // directed: a list of RELATED patterns (one matches the other's text; `?` where the other has `*`), in either
+            // order, with names matched by only one of the two, on both sides: every pattern of the list counts
+            let pairs = [("?.b", "*.b"), ("a?c", "a*c"), ("?", "*"), ("???", "a*c"), ("*.b", "q.b"), ("d/?", "d/*"), ("?.b", "*")];
+            let (p1, p2) = *r.pick(&pairs);
+            excludes = if r.chance(1, 2) { vec![p1.to_string(), p2.to_string()] } else { vec![p2.to_string(), p1.to_string()] };
+            src.clear(); dst.clear();
+            for (i, p) in ["q.b", "xy.b", "sub/long.b", "abc", "abbc", "ac", "d/x", "d/xy", "keep", "z"].iter().enumerate() {
+                let c = r.pick(&pool[..5]).clone();
+                match (i + it / 20) % 4 {
+                    0 => src.push((p.to_string(), c, 1_650_000_000, 0)),
+                    1 => dst.push((p.to_string(), c, 1_650_000_000, 0)),
+                    2 => { src.push((p.to_string(), c.clone(), 1_650_000_100, 0)); dst.push((p.to_string(), c, 1_650_000_000, 0)); }
+                    _ => { src.push((p.to_string(), c.clone(), 1_650_000_000, 0)); dst.push((p.to_string(), c, 1_650_000_000, 0)); }
+                }
+            }
+        }
+        if a.replay.is_none() && it >= 8 && it % 20 == 13 {
+            // directed: a directory next to entries named like it plus a byte below `/` (`lib/` and `lib.rs`, `data/` and
+            // `data-old/`), with a key on one side only that sorts last inside the directory: PathBuf order compares
+            // component by component, not byte by byte
+            excludes = if r.chance(1, 2) { vec!["*.tmp".to_string()] } else { vec![] };
+            src.clear(); dst.clear();
+            for p in ["lib/a.rs", "lib.rs", "lib-x/q", "data/k", "data-old/k", "data.d", "lib/m.tmp"] {
+                let c = r.pick(&pool[..5]).clone();
+                src.push((p.to_string(), c.clone(), 1_650_000_000, 0));
+                if !p.ends_with(".tmp") { dst.push((p.to_string(), c, 1_650_000_000, 0)); }
+            }
+            if r.chance(1, 2) { dst.push(("lib/zz-old.rs".to_string(), pool[1].clone(), 1_600_000_000, 0)); } else { src.push(("data/zz new".to_string(), pool[2].clone(), 1_650_000_000, 0)); }
+        }
         let verbose = r.chance(1, 4);
         write_tree(&srcd, &src);
         write_tree(&dstd, &dst);
